@@ -200,6 +200,14 @@ fn main() {
             let mut rep = p_kmer::run_c03(eff_tier, seed, &model, corpus);
             p_cli::run_c03_cli(&mut rep, eff_tier, seed, &model, &cli_bin, &work);
             py_part(&mut rep, "C03", &["header"], "OligoComputer(k).get_header()", eff_tier, seed, &model, &corpus_lines, &pymod, &work);
+            if eff_tier == "thorough" && !engine::sharded() {
+                // the header line of a mapped output of more than 4 GiB (row offsets beyond 32 bits must not land in it)
+                let mut exp = p_file::Expect::new(&model);
+                rep.evaluations += 1;
+                if let Some(f) = p_file::giant_output(true, &mut exp, &work) {
+                    rep.push_fail("giant-output", "58300 identical records, k = 7, mapped writer with header".into(), "giant 1".into(), f, 0);
+                }
+            }
             rep
         }
         "C04" => {
